@@ -81,7 +81,7 @@ def ref_bin(op, a, b, b_is_const=False):
 
 
 def gen_case(rng, max_ops=8, max_meas=5, allow_pairs=True, allow_corr=True, ops=None,
-             allow_repeated=False):
+             allow_repeated=False, allow_revalue=False):
     """one formula DAG; returns a JSON-able dict or None when the draw fell out of domain"""
     n_meas = rng.randint(1, max_meas)
     vals, errs = [], []
@@ -103,8 +103,22 @@ def gen_case(rng, max_ops=8, max_meas=5, allow_pairs=True, allow_corr=True, ops=
                 k = rng.randint(2, 6)
                 spread = errs[i] * math.sqrt(k)
                 xs = [vals[i] + rng.gauss(0, 1) * spread for _ in range(k)]
-                raw[str(i)] = {"data": [bits(x) for x in xs],
-                               "selector": rng.choice(["", "", "use_std_for_uncertainty"]),
+                if rng.random() < 0.2:
+                    xs = [vals[i]] * k          # identical readings: zero scatter
+                rerr = None
+                sels = ["", "", "use_std_for_uncertainty"]
+                if rng.random() < 0.5:
+                    rerr = [bits(abs(vals[i]) * 10 ** rng.uniform(-3, -1)) for _ in range(k)]
+                    sels += ["use_propagated_error_for_uncertainty", "use_error_weighted_mean_as_value",
+                             "use_propagated_error_for_uncertainty+use_error_weighted_mean_as_value"]
+                sel = rng.choice(sels)
+                if len(set(xs)) == 1:
+                    if rerr is None:
+                        xs[0] = xs[0] * (1 + 1e-3)     # no per-reading errors: keep some scatter
+                    else:
+                        sel = "use_propagated_error_for_uncertainty"   # the only non-zero statistic
+                raw[str(i)] = {"data": [bits(x) for x in xs], "errors": rerr,
+                               "selector": sel,
                                "ndarray": rng.random() < 0.5}
                 # provisional central value for domain control; the harness reads the real
                 # (value, error) from the library object and feeds those to the model
@@ -189,7 +203,9 @@ def gen_case(rng, max_ops=8, max_meas=5, allow_pairs=True, allow_corr=True, ops=
     root = len(nodes) - 1
     # correlations between base measurements with non-zero error, PSD by construction
     rho = []
-    base = [i for i in range(n_meas) if errs[i] > 0]
+    # (set_correlation refuses quantities whose raw readings have zero scatter)
+    base = [i for i in range(n_meas) if errs[i] > 0 and not (
+        str(i) in raw and len(set(raw[str(i)]["data"])) == 1)]
     if allow_corr and len(base) >= 2 and rng.random() < 0.7:
         mode = rng.random()
         if mode < 0.25:
@@ -212,7 +228,21 @@ def gen_case(rng, max_ops=8, max_meas=5, allow_pairs=True, allow_corr=True, ops=
         for i in {r[0] for r in rho} | {r[1] for r in rho}:
             if str(i) not in raw and rng.random() < 0.6:
                 revise[str(i)] = bits(errs[i] * 10 ** rng.uniform(-0.7, 0.7))
-    return {"revise": revise, "nodes": nodes, "root": root, "vals": [bits(v) for v in vals],
+    # a source whose central value is changed AFTER the formula was built and read once
+    # (derivative() must answer at the current central values)
+    revalue = None
+    if allow_revalue and rng.random() < 0.35:
+        cand = [i for i in range(n_meas) if str(i) not in raw]
+        if cand:
+            k = rng.choice(cand)
+            for _ in range(8):
+                trial = list(vals)
+                trial[k] = vals[k] * (1 + rng.uniform(-0.3, 0.3))
+                probe = {"nodes": nodes}
+                if ref_eval_all(probe, trial) is not None:
+                    revalue = [k, bits(trial[k])]
+                    break
+    return {"revalue": revalue, "revise": revise, "nodes": nodes, "root": root, "vals": [bits(v) for v in vals],
             "errs": [bits(e) for e in errs], "rho": rho, "n_meas": n_meas, "raw": raw,
             "ops": used_ops, "ref_value": bits(ref[root])}
 
@@ -268,9 +298,12 @@ def build_impl(q, case):
         else:
             import numpy as np
             data = [unbits(b) for b in r["data"]]
-            m = q.Measurement(np.array(data) if r["ndarray"] else data)
-            if r["selector"]:
-                getattr(m, r["selector"])()
+            args = [np.array(data) if r["ndarray"] else data]
+            if r.get("errors"):
+                args.append([unbits(b) for b in r["errors"]])
+            m = q.Measurement(*args)
+            for sel in (r["selector"].split("+") if r["selector"] else []):
+                getattr(m, sel)()
             meas.append(m)
     objs = []
     for n in case["nodes"]:
